@@ -321,7 +321,10 @@ async def _run_test_task(runner, node):
     task = asyncio.current_task()
     await asyncio.sleep(duration)
     status = sim.outcome_for(ident, attempt)
-    if missing and status in ("PASS", "WARN"):
+    override = getattr(sim, "status_override", None)
+    if override is not None:
+        status = override(uid, status)
+    if missing and status in ("PASS", "WARN") and getattr(sim, "missing_state_aborts", True):
         # a test whose required state cannot be fetched aborts (get_mode ?a)
         status = "ERROR"
     reported = status != "NEVER"
